@@ -61,19 +61,31 @@ def run_property(pid, tier, jobs, verbose=False, record_baseline=False):
     opaque = sorted(k for k, s in R.specs.items() if getattr(s, "opaque", False))
     jobs_list = [(k, timeout_ms, opaque) for k in keys]
     fn_reports = []
+    # every function is verified in a process of its own, forked from this (loaded) process: the solver context a query
+    # runs in does not depend on which other functions a pool worker happened to verify before it
+    cli._W["ctx"] = (repo, world, ex, R)
+    ctx = mp.get_context("fork")
     if jobs_list:
-        ctx = mp.get_context("fork")
-        with ctx.Pool(min(jobs, max(1, len(jobs_list))), initializer=cli._worker_init) as pool:
+        with ctx.Pool(min(jobs, max(1, len(jobs_list))), maxtasksperchild=1) as pool:
             fn_reports = pool.map(cli._verify_one, jobs_list, chunksize=1)
-    # obligations left undecided are retried once, alone (no contention from the pool) and with a 4x budget, before any
-    # verdict is drawn from them: a timeout must never turn into an alarm
-    retry_keys = [fr["key"] for fr in fn_reports if any(o["status"] == "unknown" for o in fr["obligations"]) and fr["status"] == "ok"]
-    if retry_keys:
-        cli._worker_init()
-        redone = {}
-        for k in retry_keys[:6]:
-            redone[k] = cli._verify_one((k, timeout_ms * 4, opaque))
-        fn_reports = [redone.get(fr["key"], fr) for fr in fn_reports]
+    # obligations that exhausted their budget are retried once, one process per obligation, with twice the budget
+    retry = []
+    for fi, fr in enumerate(fn_reports):
+        if fr["status"] != "ok":
+            continue
+        for oi, o in enumerate(fr["obligations"]):
+            if o["status"] in ("unknown", "timeout"):
+                retry.append((fi, oi))
+    retry = retry[:32]
+    if retry:
+        rjobs = [(fn_reports[fi]["key"], timeout_ms * 2, opaque, {oi}) for fi, oi in retry]
+        with ctx.Pool(min(jobs, len(rjobs)), maxtasksperchild=1) as pool:
+            redone = pool.map(cli._verify_one, rjobs, chunksize=1)
+        for (fi, oi), fr2 in zip(retry, redone):
+            obs2 = fr2.get("obligations", [])
+            if fr2.get("status") == "ok" and oi < len(obs2) and obs2[oi]["status"] != "skipped" \
+                    and obs2[oi]["id"] == fn_reports[fi]["obligations"][oi]["id"]:
+                fn_reports[fi]["obligations"][oi] = obs2[oi]
     # property-specific extra obligations (lemmas, AST-level frame scans, Lean lemmas ...)
     extra = []
     if pmod is not None and hasattr(pmod, "extra_obligations"):
@@ -128,7 +140,7 @@ def run_property(pid, tier, jobs, verbose=False, record_baseline=False):
     if extra_hit is not None:
         obs.append(extra_hit)
     kf = [f for f in known_findings() if f["property"] == pid]
-    violations, known_hits, undecided = [], [], []
+    violations, known_hits, undecided, timed_out = [], [], [], []
     for o in obs:
         if o["status"] == "proved":
             continue
@@ -141,6 +153,8 @@ def run_property(pid, tier, jobs, verbose=False, record_baseline=False):
             (known_hits if hit else violations).append((o, hit))
         elif o["status"] == "error":
             errors.append((o["id"], o.get("detail", "")))
+        elif o["status"] == "timeout":
+            timed_out.append(o)          # wall-clock safety net fired: never a verdict
         else:
             undecided.append(o)
     # an obligation that was discharged on the unchanged tree (committed baseline) and is no longer discharged is
@@ -204,6 +218,10 @@ def run_property(pid, tier, jobs, verbose=False, record_baseline=False):
         for o in undecided:
             print(f"UNDECIDED: {o['id']} ({o['backend']})")
         rc = rc or 2
+    if timed_out:
+        for o in timed_out:
+            print(f"UNDECIDED: {o['id']} (wall-clock limit hit before the resource budget was used up: machine too busy; not a verdict)")
+        rc = rc or 2
     if not obs and rc == 0:
         print(f"CHECKER-ERROR: property {pid} generated zero obligations")
         rc = 3
@@ -234,7 +252,9 @@ def run_property(pid, tier, jobs, verbose=False, record_baseline=False):
             "explanation": info.get("explanation", ""),
             "obligation_list": [{"id": o["id"], "status": o["status"], "backend": o["backend"], "secs": o.get("secs", 0)} for o in obs],
         },
-        "assumptions": info.get("assumptions", []) + [f"trusted (assumed, unverified) contract: {k}" for k, s in R.specs.items() if s.trusted and pid in getattr(s, "used_by", (pid,))][:40],
+        "assumptions": info.get("assumptions", []) + [f"trusted (assumed, unverified) contract: {k}" for k, s in R.specs.items() if s.trusted and pid in getattr(s, "used_by", (pid,))][:40]
+        + [f"determinism assumed (ghost result function `{c.name}`): the result of {k} depends only on the values of its arguments"
+           for k, s in R.specs.items() for c in getattr(s, "defs", []) if pid in c.props],
         "wall_s": round(time.time() - t0, 2),
         "violations": len(violations),
     }
